@@ -5,7 +5,7 @@ from harness import common, scope_leg, progs, pyscope
 TRUSTED = [
     'Coq 8.16.1 kernel; every theorem closed under the global context; premises `pick` fresh / extensional and `should` are Section hypotheses',
     'Model/Renamer.v: hand transcription of NameAssigner.__call__, allow_rename_locals/globals over the table of bindings; tied by leg R: the model (vm_compute, real name stream from Gen/NameGen.v, cost oracle tabulated from the real should_rename) must choose exactly the names the real renamer chose on every generated program',
-    'translator/namegen.py (alphabets, order and filter of the name stream; interpreter keyword/builtin tables), translator/pipeline.py (statement list, gates and argument wiring of minify)',
+    'translator/namegen.py (alphabets, order and filter of the name stream; interpreter keyword/builtin tables), translator/pipeline.py (statement list, gates and argument wiring of minify); for C11 translator/statesites.py (a syntactic inventory of state that outlives a call: it recognises the listed idioms only - state hidden behind an alias, a closure cell or a C extension is not seen)',
     'NOT modelled in Coq: the analysis that builds the table (mapper.py, bind_names.py, resolve_names.py, reservation_scope) - decided by the resolver-based alpha-equivalence oracle only; harness/pyscope.py is the reference resolver, cross-checked against CPython symtable (leg S)',
 ]
 HOIST_TRUSTED = ['Model/Hoist.v: transcription of util.insert, common_path/place_bindings, HoistedValue equality; tied by vm_compute cases against the real functions']
@@ -669,7 +669,7 @@ def run(pid, tier):
     res.trusted = TRUSTED + (HOIST_TRUSTED if pid == 'C06' else [])
     res.assumptions = ['pick returns a name outside the set it is given (the real stream never repeats: C03_generated_names_distinct for lengths 1-2)',
                        'the binding table handed to NameAssigner is well formed (wf_bindingb, checked on every table by leg R)']
-    translators = {'C03': ['namegen', 'pipeline', 'resolve'], 'C04': ['namegen', 'pipeline', 'resolve'], 'C06': [], 'C09': ['pipeline', 'resolve'], 'C10': ['pipeline'], 'C11': ['pipeline']}[pid]
+    translators = {'C03': ['namegen', 'pipeline', 'resolve'], 'C04': ['namegen', 'pipeline', 'resolve'], 'C06': [], 'C09': ['pipeline', 'resolve'], 'C10': ['pipeline'], 'C11': ['pipeline', 'statesites']}[pid]
     models = ['Model/RenamerRun.vo', 'Proofs/RenamerProofs.vo', 'Model/ResolveRun.vo'] + (['Model/Hoist.vo'] if pid == 'C06' else []) + (['Model/ScopeRun.vo'] if pid in ('C03', 'C04', 'C09') else [])
     common.standard_proof_phase(res, translators, 'Properties/%s.v' % pid, model_targets=models)
     r = common.rng(pid)
